@@ -100,17 +100,20 @@ Definition sh_upd (h : handle) (f : sst -> sst) (s : sst) : sst :=
   supd (h_d h) (fun u => sunwrap (length (h_path h)) (f (swrap (h_path h) u))) s.
 
 (* ---- the specification run of the operation language ---- *)
-Record sstate := { ss_store : sst; ss_batches : list (handle * list wop); ss_snaps : list kvmap }.
+Record sstate := { ss_store : sst; ss_batches : list (handle * list wop); ss_snaps : list kvmap; ss_lives : lives }.
 
 Definition sget_batch (r : sstate) (b : nat) : handle * list wop := nth b (ss_batches r) (h0, []).
 Definition sset_batch (r : sstate) (b : nat) (x : handle * list wop) : sstate :=
-  {| ss_store := ss_store r; ss_batches := set_nth b x (h0, []) (ss_batches r); ss_snaps := ss_snaps r |}.
+  {| ss_store := ss_store r; ss_batches := set_nth b x (h0, []) (ss_batches r); ss_snaps := ss_snaps r;
+     ss_lives := ss_lives r |}.
 Definition sset_store (r : sstate) (s : sst) : sstate :=
-  {| ss_store := s; ss_batches := ss_batches r; ss_snaps := ss_snaps r |}.
+  {| ss_store := s; ss_batches := ss_batches r; ss_snaps := ss_snaps r; ss_lives := ss_lives r |}.
+Definition sset_lives (r : sstate) (l : lives) : sstate :=
+  {| ss_store := ss_store r; ss_batches := ss_batches r; ss_snaps := ss_snaps r; ss_lives := l |}.
 
 (* what the base must be asked to compact for Compact(nil, nil) on a handle; other ranges are
    not constrained by the property *)
-Definition spec_run_op (r : sstate) (o : op) : sstate * list obs :=
+Definition spec_run_op1 (r : sstate) (o : op) : sstate * list obs :=
   let s := ss_store r in
   match o with
   | OPut h k v => (sset_store r (sh_upd h (fun x => swrite x [WPut k v]) s), [])
@@ -127,20 +130,32 @@ Definition spec_run_op (r : sstate) (o : op) : sstate * list obs :=
   | OFlush d => (sset_store r (supd d sflush s), [])
   | ODrop d => (sset_store r (supd d sdrop s), [])
   | ONfp d => (r, [match snfp (ssub d s) with Some n => BNfp n | None => BNone end])
-  | OSnap h => ({| ss_store := s; ss_batches := ss_batches r; ss_snaps := ss_snaps r ++ [sview (sh_view h s)] |}, [])
+  | OSnap h => ({| ss_store := s; ss_batches := ss_batches r; ss_snaps := ss_snaps r ++ [sview (sh_view h s)];
+                   ss_lives := ss_lives r |}, [])
   | OSGet i k => (r, [match nth_error (ss_snaps r) i with Some m => BGet (kv_get m k) | None => BNone end])
   | OSHas i k => (r, [match nth_error (ss_snaps r) i with Some m => BHas (kv_has m k) | None => BNone end])
   | OSIter i p s0 => (r, [match nth_error (ss_snaps r) i with Some m => BIter (kv_iterate m (ob p) (ob s0)) | None => BNone end])
   | OCompact h a l => (r, [BNone])      (* judged by [compact_ok], not predicted *)
+  | OECompact h a l => (r, [BNone])     (* an engine's Compact error is outside the property *)
+  | OLit i h p s0 =>
+      (sset_lives r (set_nth i (Some (kv_iterate (sview (sh_view h s)) (ob p) (ob s0))) None (ss_lives r)), [])
+  | OLNext i n => let '(l, out) := live_next (ss_lives r) i n in (sset_lives r l, [out])
+  | OLRel i => (sset_lives r (set_nth i None None (ss_lives r)), [])
   end.
 
-Fixpoint spec_run_ops (r : sstate) (ops : list op) : list obs :=
+(* an iterator created at state s and drained later (after flushes/drops under [lsafe], reads,
+   snapshots, batch building) yields the (prefix,start)-filter of the view AT s *)
+Definition spec_run_op (lsafe : bool) (r : sstate) (o : op) : sstate * list obs :=
+  let '(r', out) := spec_run_op1 r o in
+  (sset_lives r' (lives_after lsafe o (ss_lives r')), out).
+
+Fixpoint spec_run_ops (lsafe : bool) (r : sstate) (ops : list op) : list obs :=
   match ops with
   | [] => []
-  | o :: ops' => let '(r', out) := spec_run_op r o in out ++ spec_run_ops r' ops'
+  | o :: ops' => let '(r', out) := spec_run_op lsafe r o in out ++ spec_run_ops lsafe r' ops'
   end.
-Definition spec_run (s0 : sst) (ops : list op) : list obs :=
-  spec_run_ops {| ss_store := s0; ss_batches := []; ss_snaps := [] |} ops.
+Definition spec_run (lsafe : bool) (s0 : sst) (ops : list op) : list obs :=
+  spec_run_ops lsafe {| ss_store := s0; ss_batches := []; ss_snaps := []; ss_lives := [] |} ops.
 
 (* the judgement for an observed Compact range on a handle (whole-table compaction only) *)
 Definition compact_ok (s : sst) (h : handle) (start limit : okey) (r : option (okey * okey)) : bool :=
